@@ -227,7 +227,7 @@ func vc15Has(list []string, s string) bool {
 func vc15Build(t testing.TB, dir string, k *vc15Keys, sc vc15Scenario) *vc15Node {
 	n := &vc15Node{sc: sc, k: k}
 	n.path = filepath.Join(dir, fmt.Sprintf("c15_%d.db", atomic.AddInt64(&vc15Counter, 1)))
-	db, err := bbolt.CreateBBoltStore(n.path, stoabs.WithNoSync())
+	db, err := bbolt.CreateBBoltStore(n.path, stoabs.WithNoSync(), stoabs.WithLockAcquireTimeout(time.Hour))
 	if err != nil {
 		t.Fatal(err)
 	}
